@@ -85,6 +85,10 @@ def catalogue():
     add("variables-braceless-placeholder", "pair", "[Variables]\nunused : $rho\n\n" + P, "cfg", "'$name' without braces in a [Variables] entry")
     add("species-mass-nan", "eam", sub(E, "Cu.lattice_constant : 3.61", "Cu.lattice_constant : 3.61\nCu.atomic_mass : nan"), "cfg", "atomic_mass nan in [Species]")
     add("species-mass-inf", "eam", sub(E, "Cu.lattice_constant : 3.61", "Cu.lattice_constant : 3.61\nCu.atomic_mass : 1e999"), "cfg", "atomic_mass 1e999 (infinite) in [Species]")
+    # atomic_number is an integer: a fraction is not silently cut down to one, an infinite value is not an internal OverflowError (round-8 seed C16_14)
+    for bad_ in ("1.5", "7.9", "inf", "-inf", "1e999", "29.0000001"):
+        add("species-atomic-number-%s" % bad_, "eam", sub(E, "Cu.lattice_constant : 3.61", "Cu.lattice_constant : 3.61\nCu.atomic_number : %s" % bad_), "cfg", "atomic_number %s in [Species]" % bad_)
+    add("species-atomic-number-valid", "eam", sub(E, "Cu.lattice_constant : 3.61", "Cu.lattice_constant : 3.61\nCu.atomic_number : 30"), "ok", "atomic_number given as an integer")
     add("species-lattice-constant-nan", "eam", sub(E, "Cu.lattice_constant : 3.61", "Cu.lattice_constant : nan"), "cfg", "lattice_constant nan in [Species]")
     add("form-parameter-infinite", "pair", sub(P, "Si-O : as.buck 1000.0 0.3 32.0", "Si-O : as.buck 1e400 0.3 32.0"), "cfg", "a potential-form parameter that is not a finite number (1e400)")
     # ---- file level
